@@ -43,10 +43,10 @@ THEOREMS = [
     "c10_nan_word_refuted", "c10_inf_key_refuted",
     "file_roundtrip", "reference_identity", "field_objects_distinct", "restrict_drops_exactly_below_level",
     "c10_dangling_ref_refuted", "c10_parent_lookup_refuted", "c10_shallow_memo_refuted", "c10_np_string_refuted",
-    "c10_meta_nan_file_refuted",
+    "c10_meta_nan_file_refuted", "decode_history_independent", "c10_parse_memo_refuted",
 ]
 
-REQ = "From Verif Require Import Lib.Dyadic Model.C10_Attr Model.C10_File."
+REQ = "From Verif Require Import Lib.Dyadic Model.C10_Attr Model.C10_File Model.C10_Session."
 
 QUIRK_OF_VERDICT = {
     2: ("c10_nan_word", "strings containing nan/inf as a word (or NaN/Inf dict keys) are corrupted or rejected by decode_h5attr's regex"),
@@ -201,6 +201,50 @@ def gen_tree(rng, depth, dirty):
     return d
 
 
+# ============================================================================= history independence helpers
+MUT = "__mutated__"
+
+
+def mutate_in_place(v):
+    """change every mutable container reachable in v (what a caller working with a decoded value may do)"""
+    if isinstance(v, list):
+        for x in v:
+            mutate_in_place(x)
+        v.append(MUT)
+    elif isinstance(v, dict):
+        for x in list(v.values()):
+            mutate_in_place(x)
+        v[MUT] = 1
+    elif isinstance(v, set):
+        v.add(MUT)
+    elif isinstance(v, tuple):
+        for x in v:
+            mutate_in_place(x)
+
+
+def container_ids(v, out=None):
+    """ids of all mutable containers in v (a list: duplicates = aliasing inside one value)"""
+    out = [] if out is None else out
+    if isinstance(v, (list, tuple)):
+        if isinstance(v, list):
+            out.append(id(v))
+        for x in v:
+            container_ids(x, out)
+    elif isinstance(v, dict):
+        out.append(id(v))
+        for x in v.values():
+            container_ids(x, out)
+    elif isinstance(v, set):
+        out.append(id(v))
+    return out
+
+
+def file_digest(path):
+    import hashlib
+    with open(path, "rb") as f:
+        return hashlib.sha256(f.read()).hexdigest()
+
+
 # ============================================================================= A. codec cases
 def attr_case(H, v):
     """run encode/decode on the real code; return (case term, replay)"""
@@ -212,7 +256,7 @@ def attr_case(H, v):
             e = H.encode_h5attr(v)
     except Exception as ex:  # noqa: BLE001 - every exception is an observation
         oe = f"(ORaise {emit.s(type(ex).__name__)})"
-        return emit.pair(t, oe, "ONotRun"), dict(value=repr(v), encode_raised=f"{type(ex).__name__}: {ex}"[:200])
+        return emit.pair(t, oe, "ONotRun", "ONotRun", "false"), dict(value=repr(v), encode_raised=f"{type(ex).__name__}: {ex}"[:200])
     if isinstance(e, str):
         oe = f"(OText {emit.s(e)})" if all(32 <= ord(c) < 127 for c in e) else "(ORaise \"non-ascii\")"
         stored = e
@@ -228,20 +272,27 @@ def attr_case(H, v):
     else:
         oe = "(ORaise \"other\")"
         stored = e
-    try:
-        with warnings.catch_warnings():
-            warnings.simplefilter("ignore")
-            dv = H.decode_h5attr(stored)
-        od = f"(ODec {tree_term(dv)})"
-        dec = repr(dv)
-    except Unrepresentable as ex:
-        od = "(ODRaise \"unrepresentable\")"
-        dec = str(ex)
-    except Exception as ex:  # noqa: BLE001
-        od = f"(ODRaise {emit.s(type(ex).__name__)})"
-        dec = f"{type(ex).__name__}: {ex}"[:200]
-    return emit.pair(t, oe, od), dict(value=repr(v), encoded=repr(e), decoded=dec,
-                                      how="midgard.data._h5utils.decode_h5attr(encode_h5attr(value))")
+    def dec():
+        try:
+            with warnings.catch_warnings():
+                warnings.simplefilter("ignore")
+                dv = H.decode_h5attr(stored)
+            return dv, f"(ODec {tree_term(dv)})", repr(dv)
+        except Unrepresentable as ex:
+            return None, "(ODRaise \"unrepresentable\")", str(ex)
+        except Exception as ex:  # noqa: BLE001
+            return None, f"(ODRaise {emit.s(type(ex).__name__)})", f"{type(ex).__name__}: {ex}"[:200]
+
+    dv1, od1, dec1 = dec()
+    ids1 = container_ids(dv1)
+    mutate_in_place(dv1)            # the caller goes on working with what it got ...
+    dv2, od2, dec2 = dec()          # ... the stored value is decoded again
+    ids2 = container_ids(dv2)
+    aliased = len(set(ids1)) != len(ids1) or len(set(ids2)) != len(ids2) or bool(set(ids1) & set(ids2))
+    rep = dict(value=repr(v), encoded=repr(e), decoded=dec1, decoded_again_after_mutating_first_result=dec2,
+               results_share_objects=aliased,
+               how="x = decode_h5attr(encode_h5attr(value)); mutate x in place (append/setitem/add); decode_h5attr(same text) again")
+    return emit.pair(t, oe, od1, od2, emit.b(aliased)), rep
 
 
 # ============================================================================= B. datasets
@@ -626,8 +677,8 @@ def gen_meta(rng, ds, dirty):
         ds.vars[f"v{i}"] = gen_str(rng, False)
 
 
-def run_dataset_case(ctx, idx, rng, corpus=None):
-    """build, write, inspect, read, describe -> (case term, replay dict, tags)"""
+def run_dataset_case(ctx, idx, rng, corpus=None, reread=False):
+    """build, write, inspect, read, describe -> (case term, replay dict, tags); with reread: info["reread_term"]"""
     import numpy as np
     from midgard.data import dataset
     with_text = rng.random() < 0.4
@@ -660,6 +711,8 @@ def run_dataset_case(ctx, idx, rng, corpus=None):
             os.remove(path)
         return emit.pair(d_term, emit.z(lvl_n), f"(OWRaise {emit.s(type(ex).__name__)})", "ORNotRun"), rep, info
     ow = f"(OWFile {ofile_term(path)})"
+    digest0 = file_digest(path) if reread else None
+    back = None
     try:
         with warnings.catch_warnings():
             warnings.simplefilter("ignore")
@@ -683,9 +736,58 @@ def run_dataset_case(ctx, idx, rng, corpus=None):
     except Exception as ex:  # noqa: BLE001
         ord_ = f"(ORRaise {emit.s(type(ex).__name__)})"
         rep["read_raised"] = f"{type(ex).__name__}: {ex}"[:300]
+    if reread:
+        info["reread_term"] = emit.pair(d_term, emit.z(lvl_n), ow, ord_, *reread_observation(path, back, digest0, rep))
     if not os.environ.get("VERIF_KEEP_WORK"):
         os.remove(path)
     return emit.pair(d_term, emit.z(lvl_n), ow, ord_), rep, info
+
+
+def reread_observation(path, back, digest0, rep):
+    """the reader goes on working with the dataset it read (changes meta, vars and an array in place); the untouched file is
+    read again -> (second observation, file bytes unchanged, the two datasets share mutable objects)"""
+    import numpy as np
+    from midgard.data import dataset
+    ids1, arrays1 = [], []
+    if back is not None:
+        for v in back.meta.values():
+            container_ids(v, ids1)
+        for v in list(back.meta.values()):
+            mutate_in_place(v)
+        back.meta[MUT] = [1]
+        back.vars[MUT] = "x"
+        for p, f in walk_fields(back):
+            if f.fieldtype == "collection":
+                continue
+            a = np.asarray(f.data)
+            arrays1.append((".".join(p), a))
+            if a.dtype.kind == "f" and a.size and a.flags.writeable and "array_changed" not in rep:
+                a[...] = 12345.678
+                rep["array_changed"] = ".".join(p)
+    try:
+        with warnings.catch_warnings():
+            warnings.simplefilter("ignore")
+            back2 = dataset.Dataset.read(path)
+        ord2 = f"(ORData {dataset_term(back2)})"
+    except Unrepresentable:
+        raise
+    except Exception as ex:  # noqa: BLE001
+        back2 = None
+        ord2 = f"(ORRaise {emit.s(type(ex).__name__)})"
+        rep["second_read_raised"] = f"{type(ex).__name__}: {ex}"[:300]
+    aliased = False
+    if back2 is not None:
+        ids2 = []
+        for v in back2.meta.values():
+            container_ids(v, ids2)
+        aliased = len(set(ids2)) != len(ids2) or bool(set(ids1) & set(ids2))
+        a2 = {".".join(p): np.asarray(f.data) for p, f in walk_fields(back2) if f.fieldtype != "collection"}
+        aliased = aliased or any(k in a2 and a.size and np.shares_memory(a, a2[k]) for k, a in arrays1)
+        rep["meta_second_read"] = repr(dict(back2.meta))[:600]
+    same_bytes = file_digest(path) == digest0
+    rep["reread"] = dict(file_bytes_unchanged=same_bytes, datasets_share_objects=aliased,
+                         how="r1 = Dataset.read(p); change r1.meta / r1.vars / an array of r1 in place; r2 = Dataset.read(p)")
+    return ord2, emit.b(same_bytes), emit.b(aliased)
 
 
 # ----------------------------------------------------------------------------- corpus: topologies seen to fail
@@ -822,18 +924,19 @@ def run(ctx):
         ctx.count("attr:" + type(v).__name__)
         nontriv = isinstance(v, (list, tuple, set, dict)) and len(v) > 0
         ctx.case(("A", canon(v)), nontrivial=nontriv, sample=rep if nontriv and len(metaA) % 500 == 7 else None)
-    vsA = ctx.coq_cases(emit.shard_terms("check_attr", casesA, 250), REQ)
+    vsA = ctx.coq_cases(emit.shard_terms("check_attr2", casesA, 250), REQ)
     flatA = emit.flatten_verdicts(vsA, len(casesA))
 
     # ---- B. datasets
     casesB, metaB, hypB = [], [], []
+    casesR, metaR = [], []
     corp = corpus_cases()
     idx = 0
     skipped = 0
     while len(casesB) < n_ds and idx < n_ds * 3:
         c = corp[idx] if idx < len(corp) else None
         try:
-            term, rep, info = run_dataset_case(ctx, idx, rng, corpus=c)
+            term, rep, info = run_dataset_case(ctx, idx, rng, corpus=c, reread=(idx % 3 == 0 or c is not None))
         except Unrepresentable as ex:
             skipped += 1
             ctx.count("dataset:outside-model")
@@ -844,6 +947,10 @@ def run(ctx):
         casesB.append(term)
         metaB.append(rep)
         hypB.append(info.pop("hyp_term"))
+        if "reread_term" in info:
+            casesR.append(info.pop("reread_term"))
+            metaR.append(dict(rep, kind="dataset-read-twice"))
+            ctx.count("dataset:read-twice")
         ctx.count(f"dataset:level:{rep['write_level']}")
         ctx.count(f"dataset:nfields:{len(rep['fields'])}")
         ctx.count(f"dataset:nrefs:{len(rep['references'])}")
@@ -859,6 +966,8 @@ def run(ctx):
                  nontrivial=nontriv, sample=rep if nontriv and len(metaB) % 60 == 11 else None)
     vsB = ctx.coq_cases(emit.shard_terms("check_run", casesB, 12), REQ)
     flatB = emit.flatten_verdicts(vsB, len(casesB))
+    vsR = ctx.coq_cases(emit.shard_terms("check_reread", casesR, 8), REQ)
+    flatR = emit.flatten_verdicts(vsR, len(casesR))
     # how many generated datasets meet the hypotheses of file_roundtrip (wf, tree_shaped, closed)
     vsH = ctx.coq_cases(emit.shard_terms("check_hyp", hypB, 40), REQ + "\nFrom Verif Require Import Proofs.C10_FileTop.")
     flatH = emit.flatten_verdicts(vsH, len(hypB))
@@ -907,7 +1016,7 @@ def run(ctx):
                 ctx.finding(fid, "a field named like a reference attribute (other/ref_pos/time) is read back with the data of another field's private attribute object", rep)
 
     # ---------------------------------------------------------------- decide
-    for name, flat, meta in (("A", flatA, metaA), ("B", flatB, metaB)):
+    for name, flat, meta in (("A", flatA, metaA), ("B", flatB, metaB), ("R", flatR, metaR)):
         if flat is None:
             ctx.violation({"broken": f"correspondence shard {name} did not evaluate in Coq", "errors": ctx.last_coq_errors[:2]},
                           what="correspondence (model evaluation) failed", found=False)
